@@ -7,6 +7,7 @@ mod spec;
 mod tree;
 mod tree_oracle;
 mod util;
+mod xml;
 mod values;
 
 fn main() {
@@ -22,6 +23,7 @@ fn main() {
         "spec-types" => spec::types_main(&args[2..]),
         "spec" => spec::main(&args[2..]),
         "regex" => regexes::main(&args[2..]),
+        "xml" => xml::main(&args[2..]),
         "tree" => tree::main(&args[2..]),
         "values" => values::main(&args[2..]),
         other => {
